@@ -9,11 +9,11 @@ ROOT = os.path.dirname(os.path.dirname(os.path.abspath(__file__)))
 # property -> (technique, level text, level note, design section)
 CHECKS = {
     "C01": ("property-based testing (proptest) + grid enumeration against an exact (BigInt, scale) model, every overload per case",
-            "Exploration: every scale gap 0..45 and the 20/590-digit algorithm switches crossed with digit shapes and signs, plus seed-reproducible random operand tuples up to 5000 digits, each pushed through all ~100 overloads and compared by exact value with model arithmetic. Right level because the property is a universally quantified algebraic identity with a cheap exact oracle; the structured regions are constructed rather than hoped for.",
+            "Exploration: every scale gap 0..45 and the 20/590-digit algorithm switches crossed with digit shapes and signs, plus seed-reproducible random operand tuples up to 5000 digits, each pushed through all ~100 overloads and compared by exact value with model arithmetic; ones written 1.00, zeros carrying a scale and powers of ten appear on either side; release and debug-assertion builds. Right level because the property is a universally quantified algebraic identity with a cheap exact oracle; the structured regions are constructed rather than hoped for.",
             "Trusts num-bigint integer arithmetic and BigDecimal::as_bigint_and_exponent as the observation point. Does not establish absence outside the explored cases.",
             "5 C01"),
     "C02": ("exhaustive enumeration of word-boundary twins + proptest generation, differential against the exact order of rationals, release and debug-assertion builds",
-            "Exploration with an exhaustively enumerated sub-scope: all 1- and 2-word operands from the 32-bit carry/overflow boundary words x scale gaps x {twin, +1, -1} x signs; an exhaustive sweep of EVERY scale gap 1..1500 (5000 thorough) over coefficients around powers of two and ten with decimal and binary-structured neighbours (+-1, +2^32 .. +2^192); generated twins/neighbours/same-magnitude pairs up to 3000 digits, scale differences beyond 2^63, u64/u128 straddles, sort/max/min vectors; plain, sign-flipped and abs references. Every operator on BigDecimal and BigDecimalRef is compared with the oracle order; panics are violations (second build with debug assertions and overflow checks).",
+            "Exploration with an exhaustively enumerated sub-scope: all 1- and 2-word operands from the 32-bit carry/overflow boundary words x scale gaps x {twin, +1, -1} x signs; an exhaustive sweep of EVERY scale gap 1..1500 (5000 thorough) over coefficients around powers of two and ten with decimal and binary-structured neighbours (+-1, +2^32 .. +2^192); value-equal pairs with scale gaps of 10^4..3*10^6 (the only inputs on which the float estimate of the early-out decides); generated twins/neighbours/same-magnitude pairs up to 3000 digits, scale differences beyond 2^63, u64/u128 straddles, sort/max/min vectors; plain, sign-flipped and abs references. Every operator on BigDecimal and BigDecimalRef is compared with the oracle order; panics are violations (second build with debug assertions and overflow checks).",
             "Oracle: adjusted-exponent-first exact comparison on (BigInt, i128). Trusts num-bigint.",
             "5 C02"),
     "C03": ("exhaustive small-scope enumeration + proptest generation of value-equal representation pairs; byte-stream comparison through a recording Hasher",
@@ -21,7 +21,7 @@ CHECKS = {
             "Equality of each pair is asserted by the exact oracle, not by the library. |scale| <= 10^5 as in the property.",
             "5 C03"),
     "C04": ("round-trip property testing (render -> library parser and independent reference evaluator) over a complete length x scale grid plus proptest generation",
-            "Exploration: EVERY digit length 1..40 x EVERY scale -40..60 x 4 digit patterns x both signs, zero at every scale -2000..2000, generated values up to 3000 digits and scales to +-10^15; eight renderings each parsed back by the library and by a reference recogniser; digits/scale identity demanded exactly where the property demands it; Display notation switch and length bound checked against the build-time thresholds.",
+            "Exploration: EVERY digit length 1..40 x EVERY scale -40..60 x 4 digit patterns x both signs, zero at every scale -2000..2000, generated values up to 3000 digits and scales to +-10^15; eight renderings each parsed back by the library and by a reference recogniser; digits/scale identity demanded exactly where the property demands it, scale 0 where an integer is written out with its zeros, no superfluous leading zero; Display notation switch and length bound checked against the build-time thresholds.",
             "Reference numeral evaluator in ws/oracle (no shared code). Plain notation only for |scale| <= 2*10^4.",
             "5 C04"),
     "C05": ("exhaustive enumeration of all short strings over an 11-letter alphabet + grammar-based and mutation-based proptest generation (+ libFuzzer in the thorough tier), differential against a reference recogniser/evaluator",
@@ -29,23 +29,23 @@ CHECKS = {
             "The reference grammar is the property statement made executable (DESIGN.md section 5 C05).",
             "5 C05"),
     "C06": ("exhaustive enumeration (all 4200 round_pair arguments, round_u32 grid, all small decimals x targets x modes) + proptest generation of tie/near-tie/all-nines tails; quotient/remainder rounding oracle",
-            "Exploration with exhaustive sub-scopes as named in the property; beyond them up to 3000-digit inputs with constructed tails and targets inside / at / left of the leading digit and at the ends of the i64 scale range. Result scale and integer are compared exactly; with_scale == Down and round(n) == configured mode.",
+            "Exploration with exhaustive sub-scopes as named in the property; beyond them up to 3000-digit inputs with constructed tails and targets inside / at / left of the leading digit (by up to 2^48 places) and at the ends of the i64 scale range, extensions of up to 1180 places under every mode. Result scale and integer are compared exactly; with_scale == Down and round(n) == configured mode.",
             "Oracle: |n| div/rem 10^k and 2*rem vs 10^k. Configured default mode is read from the build environment, not from the library.",
             "5 C06"),
     "C07": ("exhaustive small-scope enumeration + proptest generation; rounding oracle at the p-th significant digit applied to every precision-rounding entry point",
-            "Exploration: every |n| below the tier limit x 3 scales x every p in 1..digits+5 x 7 modes exhaustively; generated tails up to 3000 digits with p at the tail cut and around the digit count, scales at the ends of the i64 range, context sums with cancellation and carries. Values compared exactly; digit count checked where the statement fixes it (padding).",
+            "Exploration: every |n| below the tier limit x 3 scales x every p in 1..digits+5 x 7 modes exhaustively; generated tails up to 3000 digits with p at the tail cut and around the digit count, scales at the ends of the i64 range, context sums with cancellation, carries and designed tie / near-tie tails of the exact sum, sign-flipped references, contexts made by the builder methods. Values compared exactly; digit count checked where the statement fixes it (padding).",
             "After an all-nines carry the library returns p+1 digits with the right value; only the value is compared there.",
             "5 C07"),
     "C08": ("proptest generation + exhaustive small scope and zero-divisor matrix; residual-based quotient oracle, differential between overloads",
-            "Exploration: all a, b in -200..200 exhaustively, the full 10-type x special-value x 9-overload matrix, generated pairs up to 2000 digits including 2^i*5^j divisors, quotients terminating around 100 digits, a = q*b +- r constructions, primitive and float operands on either side. Exactness when the quotient has <= 100 digits, otherwise >= 100 digits within half an ulp with ties away from zero; zero divisors must panic in every form.",
+            "Exploration: all a, b in -200..200 exhaustively, the full 10-type x special-value x 9-overload matrix, generated pairs up to 2000 digits including 2^i*5^j divisors, quotients terminating after exactly P-3..P+3 digits, a = q*b +- r constructions, primitive and float operands on either side. Exactness when the quotient has <= 100 digits, otherwise >= 100 digits within half an ulp with ties away from zero; zero divisors must panic in every form.",
             "Oracle decides 'terminates within P digits' by stripping factors 2 and 5; no division result is trusted. Non-normal floats are outside the statement's domain.",
             "5 C08"),
     "C09": ("exhaustive small scope + proptest generation against the truncated-division model",
-            "Exploration: all a, b in -200..200 x 9 scale pairs exhaustively; generated pairs up to 2000 digits with scale gaps to 10^4 in both directions, twins, exact multiples; five forms each; zero divisor must panic.",
+            "Exploration: all a, b in -200..200 x 9 scale pairs exhaustively; generated pairs up to 2000 digits with scale gaps to 10^4 in both directions, twins and exact multiples with either operand at the finer scale; five forms each; zero divisor must panic.",
             "Model: align to the larger scale with exact powers of ten, BigInt truncated remainder.",
             "5 C09"),
     "C10": ("exhaustive small scope + proptest generation with constructed roots; correctly-rounded-root oracle decided by integer inequalities",
-            "Exploration: every n below the tier limit x scales -3..3 x p 1..6 x 7 modes exhaustively; generated inputs up to 2000 digits, scales of both parities, inputs longer than 2(p+5) digits, x = R^2 (+-1 far away) with R ending in tie / 50..0x / 49..9x / 00..0x / 99..9x tails, p to 150. Value form, default form and the three reference forms.",
+            "Exploration: every n below the tier limit x scales -3..3 x p 1..6 x 7 modes exhaustively; generated inputs up to 2000 digits, scales of both parities, inputs longer than 2(p+5) digits, x = R^2 (+-1 far away) with R ending in tie / 50..0x / 49..9x / 00..0x / 99..9x tails, exact roots at precisions far above their length, p to 150. Value form, default form and the three reference forms.",
             "Oracle: verified floor integer root, exactness flag, midpoint comparison, mode table.",
             "5 C10"),
     "C11": ("exhaustive small scope + proptest generation with constructed roots; correctly-rounded cube-root oracle; metamorphic sign-mirror relation",
@@ -54,10 +54,10 @@ CHECKS = {
             "5 C11"),
     "C12": ("exhaustive small scope and all 2^i*5^j + proptest generation; residual-based reciprocal oracle; iteration-cap hook for termination; metamorphic sign-mirror relation",
             "Exploration: every 0<|n| below the tier limit x 5 scales x p 1..6 x 7 modes and all 2^i*5^j (i<=60, j<=30) around their exact length exhaustively; generated inputs to 1500 digits, bit lengths to 5000, 99..9 / 100..01, reciprocals with 00../99.. after the p-th digit, p weighted to 1..5 and 100. Sign, < 1 unit of the p-th digit, exactness when 1/x has <= p digits, mirror law, agreement of inverse() and `1 / x`.",
-            "Termination is observed through the --cfg bigdecimal_verif iteration cap (2000 Newton steps). Unit taken in the larger decade when r and 1/x straddle a power of ten.",
+            "Termination is observed through the --cfg bigdecimal_verif iteration cap (2000 Newton steps). The unit is that of the p-th digit of 1/x itself.",
             "5 C12"),
     "C13": ("exhaustive integer arguments + proptest generation; rigorous big-integer interval arithmetic for e^x as oracle",
-            "Exploration: every integer argument in the tier's range, generated arguments of 1..40 digits with magnitudes 1e-60..1e3, near k*ln10, near 0. Positivity, |exp(x) - e^x| <= one unit of the 100th digit decided against an enclosure ~1e-30 ulp wide, exp(0) = 1 exactly, batch monotonicity up to two units.",
+            "Exploration: every integer argument in the tier's range, integers in several representations, generated arguments of 1..40 digits with magnitudes 1e-130..1e3, long arguments, x within 1e-95..1e-108 of k*ln10 (results that carry into a power of ten), near 0. Positivity, |exp(x) - e^x| <= one unit of the 100th digit decided against an enclosure about 1e-60 units wide (working digits = judged digits + 70), exp(0) = 1 exactly, batch monotonicity up to two units.",
             "Interval oracle self-tests (e^x*e^-x contains 1, e^(a+b) inside e^a*e^b) make the check exit 2, not 1, if they fail. Series-loop cap via the hook.",
             "5 C13"),
     "C14": ("exhaustive enumeration of f32 bit patterns (all 2^32 in the thorough tier) + proptest generation of f64 bit patterns and decimals; exact binary decoding as oracle",
@@ -69,23 +69,23 @@ CHECKS = {
             "Model: BigInt division truncates toward zero; range test against the type limits.",
             "5 C15"),
     "C16": ("exhaustive small scope x N 0..9 + proptest generation; rounding oracle, reference numeral evaluator and a model of Formatter::pad_integral",
-            "Exploration: all |n| below the tier limit x scales -3..8 x N 0..9 x {:.N} {:.Ne} {:.NE} exhaustively; generated values to 300 digits, scales -1100..400, N to 1100 around the padding limit, ties, all-nines carries; 192 literal format strings for the flag combinations with run-time width and precision.",
+            "Exploration: all |n| below the tier limit x scales -3..8 x N 0..9 x {:.N} {:.Ne} {:.NE} exhaustively; generated values to 300 digits, scales -1100..400, N to 1100, an exhaustive sweep of the padding limit (-scale + N = limit-1..limit+2 for every scale to -1100) with the exact unpadded text demanded beyond it, ties, all-nines carries; 192 literal format strings for the flag combinations with run-time width and precision.",
             "pad_integral model validated against std's integer formatting in the oracle's unit tests.",
             "5 C16"),
     "C17": ("proptest generation of decimals and JSON number texts (+ libFuzzer in the thorough tier); round-trip and differential against the reference evaluator; recording serializer",
-            "Exploration: decimals of 1..400 digits with scales to +-150000 (+-1), each Display notation; JSON numbers of 1..2000 digits with fractions/exponents and malformed variants; exponents at the scale limit, at m*2^32 + d and beyond i64; every number also read through a serde_json::Value; serde value deserializers of every integer/float width; json_num / json_num_option in a derived struct incl. null, through text and through Value; no panic on either build flavour. One open known finding (plain BigDecimal from a Value number goes through f64, see known-findings.txt) is recognised by an oracle-computed signature and reported as KNOWN-FINDING.",
+            "Exploration: decimals of 1..400 digits with scales to +-150000 (+-1), each Display notation; JSON numbers of 1..2000 digits with fractions/exponents and malformed variants; exponents at the scale limit, at m*2^32 + d and beyond i64; every number also read through a serde_json::Value; serde value deserializers of every integer/float width; json_num / json_num_option in a derived struct incl. null, through text and through Value; documents and tokens that are not numbers through every route; no panic on either build flavour. One open known finding (plain BigDecimal from a Value number goes through f64, see known-findings.txt) is recognised by an oracle-computed signature and reported as KNOWN-FINDING.",
             "Uses serde_json 1.0.117 (arbitrary_precision) from the repository's lock file.",
             "5 C17"),
     "C18": ("exhaustive enumeration (k = 0..5000 powers of ten, all 5-digit values x scales) + proptest generation; string-built expectations",
-            "Exploration: digits() on both sides of every power of ten up to 10^5000 and the three power-of-ten algorithms exhaustively; all unscaled values of up to 5 digits x scales -6..6; generated values to 5000 digits with up to 5000 trailing zeros and extensions.",
+            "Exploration: digits() on both sides of every power of ten up to 10^5000 and the three power-of-ten algorithms exhaustively; all unscaled values of up to 5 digits x scales -6..6; generated values to 5000 digits with up to 5000 trailing zeros and extensions through with_scale / with_prec / the rounding forms.",
             "Expected integers are decimal strings built by the harness.",
             "5 C18"),
     "C19": ("model-based (stateful) property testing: generated operation programs interpreted on the library and on an exact model, invariant checked after every step (+ libFuzzer in the thorough tier)",
-            "Exploration over histories: programs of 1..40 operations over a pool with special representations, random overload per step; after every step value equality with the model, and ==, cmp and hash stream against a canonical twin. Both build flavours.",
+            "Exploration over histories: programs of 1..40 operations over a pool with special representations, random overload per step out of all 41 decimal spellings, the accumulator on either side and combined with itself or with one of its last four intermediate values; after every step value equality with the model, and ==, cmp and hash stream against a canonical twin. Both build flavours.",
             "The whole program shrinks as one proptest value.",
             "5 C19"),
     "C20": ("property-based testing of a probe binary rebuilt per build configuration (covering array over the configuration space), exhaustive small-scope division at precisions 1..3",
-            "Exploration over build configurations: each configuration rebuilds the library through its build script with RUST_BIGDECIMAL_* set; the probe receives the configured values on its command line and checks default-context operations against explicit-context ones and against the oracles.",
+            "Exploration over build configurations: each configuration rebuilds the library through its build script with RUST_BIGDECIMAL_* set; the probe receives the configured values on its command line and checks default-context operations against explicit-context ones and against the oracles (7 configurations quick; all 56 precision x mode pairs with the three formatting parameters pairwise covered in the thorough tier; every fifth one built with debug assertions).",
             "Configured values are never read back from the library.",
             "5 C20"),
 }
